@@ -16,7 +16,9 @@ SPEC = {
              "MaxAttempts and at 1000 node slots; single transient storage fault (schedule code 2: the storage call of that step, in "
              "the shared tier for hybrid stores, returns an error): every fault position x every schedule of length 4/5 x "
              "2-3 nodes each with its own hybrid store over one shared tier, plus one random fault in a third of the random "
-             "histories; free-running contention without gates; non-trivial = has threads; distinct = "
+             "histories; free-running contention without gates, incl. 700 rounds (quick) of N in {2,4,8} generators/allocators "
+             "released behind a spin barrier onto candidates whose pre-existing markers are absent / live / expired-not-yet-swept "
+             "(1 ms TTL, real 5 ms wait) on memory, hybrid(memory), redis, hybrid(redis) and the double; non-trivial = has threads; distinct = "
              "distinct case string"),
     "trusted_base": [
         "Lean 4.33 kernel; axioms propext, Classical.choice, Quot.sound only (audited per theorem on every run)",
